@@ -39,7 +39,9 @@ def cases(draw, kinds=gen_tables.KINDS):
     via = draw(st.sampled_from(["stream", "path", "stream", "path", "file-stream", "fd-stream", "spooled-stream"]))
     if spec["fmt"]["format"] not in ("delimited", "fixed") and via.endswith("-stream"):
         via = "path"
-    return {"spec": spec, "rows": rows, "via": via}
+    # what the input is called (it shows up in every error text): also with what format strings are made of
+    name = draw(st.sampled_from(["data", "data", "growth 50%", "rate%s", "100%%", "a%(x)s", "{0}", "d\xe4ta"]))
+    return {"spec": spec, "rows": rows, "via": via, "name": name}
 
 
 def load(spec):
@@ -179,7 +181,7 @@ def check_case(sub, case):
             sub.fail("C04|cid-load|%s|%s|%s" % (fmt_name, type(error).__name__, norm_message(error)), case,
                      "generated CID rejected: %s: %s" % (type(error).__name__, error))
             return
-        source, base_name = gen_tables.write_source(spec, rows, tmpdir, via)
+        source, base_name = gen_tables.write_source(spec, rows, tmpdir, via, name=case.get("name", "data"))
         stored = gen_tables.stored_rows(spec, rows)
         expected = model_validio.predict(spec, stored)
         try:
